@@ -71,7 +71,7 @@ func validateEvalFlags() error {
 }
 
 //gocyclo:ignore
-func updatePolicyEngineObjectsFromDirPath(pe *eval.PolicyEngine, podNames []types.NamespacedName) error {
+func policyEngineFromDirPath(podNames []types.NamespacedName) (*eval.PolicyEngine, error) {
 	// get relevant resources from dir path
 	eLogger := logger.NewDefaultLoggerWithVerbosity(determineLogVerbosity())
 
@@ -81,7 +81,7 @@ func updatePolicyEngineObjectsFromDirPath(pe *eval.PolicyEngine, podNames []type
 		if len(rList) == 0 || stopOnFirstError {
 			err := utilerrors.NewAggregate(errs)
 			eLogger.Errorf(err, netpolerrors.ErrGettingResInfoFromDir)
-			return err // return as fatal error if rList is empty or if stopOnError is on
+			return nil, err // return as fatal error if rList is empty or if stopOnError is on
 		}
 		// split err if it's an aggregated error to a list of separate errors
 		for _, err := range errs {
@@ -91,34 +91,14 @@ func updatePolicyEngineObjectsFromDirPath(pe *eval.PolicyEngine, podNames []type
 	objectsList, processingErrs := parser.ResourceInfoListToK8sObjectsList(rList, eLogger, false)
 	for _, err := range processingErrs {
 		if err.IsFatal() || (stopOnFirstError && err.IsSevere()) {
-			return fmt.Errorf("scan dir path %s had processing errors: %w", dirPath, err.Error())
+			return nil, fmt.Errorf("scan dir path %s had processing errors: %w", dirPath, err.Error())
 		}
 	}
 	objectsList = parser.FilterObjectsList(objectsList, podNames)
 
-	var err error
-	for i := range objectsList {
-		obj := objectsList[i]
-		switch obj.Kind {
-		case parser.Pod:
-			err = pe.InsertObject(obj.Pod)
-		case parser.Namespace:
-			err = pe.InsertObject(obj.Namespace)
-			// netpols kinds
-		case parser.NetworkPolicy:
-			err = pe.InsertObject(obj.NetworkPolicy)
-		case parser.AdminNetworkPolicy:
-			err = pe.InsertObject(obj.AdminNetworkPolicy)
-		case parser.BaselineAdminNetworkPolicy:
-			err = pe.InsertObject(obj.BaselineAdminNetworkPolicy)
-		default:
-			continue
-		}
-		if err != nil {
-			return err
-		}
-	}
-	return nil
+	// build the policy engine the way `list` does: besides inserting the objects, this sorts the
+	// admin-network-policies by priority and resolves namespaces that have no Namespace manifest
+	return eval.NewPolicyEngineWithObjects(objectsList)
 }
 
 func updatePolicyEngineObjectsFromLiveCluster(pe *eval.PolicyEngine, podNames []types.NamespacedName, nsNames []string) error {
@@ -182,7 +162,8 @@ func runEvalCommand() error {
 	pe := eval.NewPolicyEngine()
 
 	if dirPath != "" {
-		if err := updatePolicyEngineObjectsFromDirPath(pe, podNames); err != nil {
+		var err error
+		if pe, err = policyEngineFromDirPath(podNames); err != nil {
 			return err
 		}
 	} else {
